@@ -1,9 +1,10 @@
 (* C22 — The grammar compiler never crashes and reports in-range diagnostics (partial: the part that is
    logic — position arithmetic and error construction).
    Model: Util/LineCol.v (lineOffsets, sort.Search, Node.LineColumn, Node.SourceRange, status.AddError /
-   FromError / Err, the error hand-over of compiler.Compile). *)
+   FromError / Err, the error hand-over of compiler.Compile); Util/PatternErr.v (compiler/lexer.go parsePattern:
+   mapping of regexp error offsets into the grammar text). *)
 From Coq Require Import List ZArith Bool.
-From TM Require Import Util.LineCol Util.LineCol_proofs.
+From TM Require Import Util.LineCol Util.LineCol_proofs Util.PatternErr Util.PatternErr_proofs.
 Import ListNotations.
 Local Open Scope Z_scope.
 
@@ -73,10 +74,56 @@ Theorem C22_wellformed_check_sound :
   forall path content r, wellformedb path content r = true <-> wellformed path content r.
 Proof. exact wellformedb_iff. Qed.
 
+(* pattern_error_in_range. For EVERY grammar text pre ++ pat ++ rest in which pat (the pattern node, slashes
+   included, at least "//") contains no line break, and EVERY lex.ParseError whose Offset is not negative
+   (EndOffset arbitrary, even nonsense): the origin that parsePattern builds exists (no LineColumn panic, no
+   slicing panic), carries the file name, lies inside the pattern's own range [|pre|, |pre|+|pat|] - hence in the
+   text -, is on the pattern's line, and its (Line, Column) is line_col of its Offset, i.e. the column
+   arithmetic "Column += Offset + 1" agrees with the byte offset arithmetic. *)
+Theorem C22_pattern_error_in_range :
+  forall path pre pat rest pe,
+  (2 <= length pat)%nat -> ~ In NL pat -> 0 <= pe_off pe ->
+  let content := pre ++ pat ++ rest in
+  let nd := mkNode (Z.of_nat (length pre)) (Z.of_nat (length pre + length pat)) in
+  exists r, pattern_error_range path (line_offsets content) nd pe = Some r /\
+            wellformed path content r /\
+            n_off nd <= sr_off r /\ sr_end r <= n_end nd /\
+            sr_line r = fst (line_col content (n_off nd)).
+Proof. exact pattern_error_wellformed. Qed.
+
+(* ... and it points at the offender: when the error's offsets are what ParseRegexp promises
+   (0 <= Offset <= EndOffset <= len(text), Offset < len(text)), the reported range starts exactly at byte
+   Offset of the text between the slashes, never covers a slash, ends at EndOffset for a non-empty error
+   range and at the closing slash for an empty one, and the column moved as far as the offset. *)
+Theorem C22_pattern_error_points_at_offender :
+  forall rng pe,
+  0 <= pe_off pe <= pe_end pe -> pe_end pe <= pattern_text_len rng -> pe_off pe < pattern_text_len rng ->
+  let r := map_pattern_error rng pe in
+  sr_off r = sr_off rng + 1 + pe_off pe /\
+  sr_end r = (if pe_off pe <? pe_end pe then sr_off rng + 1 + pe_end pe else sr_end rng - 1) /\
+  sr_off rng + 1 <= sr_off r /\ sr_off r < sr_end rng - 1 /\ sr_off r <= sr_end r <= sr_end rng - 1 /\
+  sr_col r - sr_col rng = sr_off r - sr_off rng.
+Proof. exact map_pattern_error_exact. Qed.
+
+(* An error the guard rejects (e.g. "missing closing parenthesis" at the very end of the text) is reported for
+   the whole pattern. *)
+Theorem C22_pattern_error_fallback :
+  forall rng pe, pattern_guard rng pe = false -> map_pattern_error rng pe = rng.
+Proof. exact map_pattern_error_fallback. Qed.
+
+(* The hypothesis 0 <= Offset of pattern_error_in_range cannot be dropped: parsePattern's guard does not test
+   it, a negative Offset would be mapped in front of the pattern. (lex.ParseRegexp never produces one: checked
+   on every c22.pattern case by the oracle, not proved.) *)
+Theorem C22_pattern_guard_relies_on_nonnegative_offsets :
+  exists rng pe, sr_off rng + 2 <= sr_end rng /\ pattern_guard rng pe = true /\
+                 sr_off (map_pattern_error rng pe) < sr_off rng.
+Proof. exact pattern_guard_needs_nonneg. Qed.
+
 (* NOT modelled (partial): the generated tm lexer/parser that produces the nodes and the syntax error
    (hypothesis front_end_ok; its line counter is C12's subject), option parsing, the passes that decide
    WHICH diagnostics exist, and their log.Fatal invariants: panic/exit/hang-freedom of those is only
-   exercised by the mutation search in a subprocess. *)
+   exercised by the mutation search in a subprocess. lex.ParseRegexp itself is C10's model; that its error
+   offsets lie in the pattern text is checked per case, not proved. *)
 
 Example C22_examples :
   let text := [97;10;98;99;10;10;100] (* "a\nbc\n\nd" *) in
@@ -95,7 +142,21 @@ Proof.
   constructor; [|constructor]. eexists; split; [reflexivity|]. vm_compute. repeat split; discriminate.
 Qed.
 
+Example C22_pattern_examples :
+  (* "a: /x[z-a]y/\n": pattern node [3, 12), error "invalid character class range" at text offsets [2, 5) *)
+  let text := [97;58;32;47;120;91;122;45;97;93;121;47;10] in
+  pattern_error_range [103] (line_offsets text) (mkNode 3 12) (mkPE 2 5) = Some (mkSR [103] 6 9 1 7) /\
+  (* an empty error range is extended to the closing slash *)
+  pattern_error_range [103] (line_offsets text) (mkNode 3 12) (mkPE 2 2) = Some (mkSR [103] 6 11 1 7) /\
+  (* an error at the end of the text falls back to the whole pattern *)
+  pattern_error_range [103] (line_offsets text) (mkNode 3 12) (mkPE 7 7) = Some (mkSR [103] 3 12 1 4).
+Proof. vm_compute. repeat split; reflexivity. Qed.
+
 Print Assumptions C22_line_column_consistent.
+Print Assumptions C22_pattern_error_in_range.
+Print Assumptions C22_pattern_error_points_at_offender.
+Print Assumptions C22_pattern_error_fallback.
+Print Assumptions C22_pattern_guard_relies_on_nonnegative_offsets.
 Print Assumptions C22_line_col_meaning.
 Print Assumptions C22_line_column_inverse.
 Print Assumptions C22_line_col_injective.
